@@ -60,6 +60,23 @@ type pStrictV struct {
 
 func (pStrictV) DisallowUnknownFields() {}
 
+// pLevel has its own decoder, which reports failure as a *jrpc2.Error with an application code:
+// whatever a decoder returns, undecodable parameters are InvalidParams
+type pLevel int
+
+func (l *pLevel) UnmarshalJSON(b []byte) error {
+	switch string(b) {
+	case `"low"`:
+		*l = 1
+	case `"high"`:
+		*l = 2
+	case `null`:
+	default:
+		return jrpc2.Errorf(1001, "unknown level %s", b)
+	}
+	return nil
+}
+
 type pStrictP struct{ A int }
 
 func (*pStrictP) DisallowUnknownFields() {}
@@ -72,6 +89,7 @@ var c15ArgTypes = []reflect.Type{
 	reflect.TypeOf(struct{}{}), reflect.TypeOf((*int)(nil)),
 	// non-struct parameters that contain structs: strict decoding applies to the whole value
 	reflect.TypeOf([]pPlain(nil)), reflect.TypeOf(map[string]pPlain(nil)), reflect.TypeOf([1]pPlain{}), reflect.TypeOf((**pPlain)(nil)), reflect.TypeOf([]*pTagged(nil)),
+	reflect.TypeOf(pLevel(0)), reflect.TypeOf([]pLevel(nil)),
 }
 
 // docFieldNames: the positional names of a struct parameter as documented: exported fields in
@@ -158,7 +176,7 @@ var c15Params = []string{
 	"", "null", "{}", "[]", `{"A":1,"b":"x"}`, `{"a":1,"B":"x"}`, `{"A":1,"zz":2}`, `[1,"x"]`, `[1]`, `[1,"x",3]`, `["x",1]`, `5`, `"s"`, `true`,
 	`{"x":3,"why":[1,2]}`, `[3,[1,2]]`, `{"name":"n","N":2,"Q":5}`, `["n",2]`, `["n",{"K":1},3]`, `["n",3]`, `{"name":"n","K":4,"count":2}`, `{"inner":{"K":1},"Z":2}`, `[{"K":1},2]`,
 	`{"a":1,"b":2}`, `[1,2]`, `{"a":1,"b":2,"c":3}`, `[1,2,3]`, `{"A":7}`, `{"A":7,"extra":true}`, `[7]`, `[1, 2 ]`, ` [ 1 ] `, `[null,null]`, `{"A":null}`, `[[1,2],3]`, `{"k":1,"j":2}`, `[1.5]`, `1.5`,
-	`[{"A":1,"b":"x"}]`, `[{"A":1,"zz":2}]`, `{"k":{"A":1,"b":"y"}}`, `{"k":{"A":1,"zz":2}}`, `[{"x":1,"nope":0}]`,
+	`"low"`, `"medium"`, `["high","medium"]`, `[{"A":1,"b":"x"}]`, `[{"A":1,"zz":2}]`, `{"k":{"A":1,"b":"y"}}`, `{"k":{"A":1,"zz":2}}`, `[{"x":1,"nope":0}]`,
 }
 
 func TestC15(t *testing.T) {
@@ -402,13 +420,14 @@ func TestC16(t *testing.T) {
 	rng := newRNG()
 	ctx := context.Background()
 	kinds := []reflect.Type{reflect.TypeOf(0), reflect.TypeOf(""), reflect.TypeOf([]int(nil)), reflect.TypeOf((*int)(nil)), reflect.TypeOf(map[string]int(nil)), reflect.TypeOf(pPlain{}), reflect.TypeOf(true),
-		reflect.TypeOf(int64(0)), reflect.TypeOf(uint64(0)), reflect.TypeOf(json.RawMessage(nil))}
+		reflect.TypeOf(int64(0)), reflect.TypeOf(uint64(0)), reflect.TypeOf(json.RawMessage(nil)), reflect.TypeOf(pLevel(0))}
 	sample := map[reflect.Type][]string{
 		kinds[0]: {`1`, `null`, `"x"`, `1.5`}, kinds[1]: {`"s"`, `null`, `5`}, kinds[2]: {`[1,2]`, `null`, `[]`, `["a"]`}, kinds[3]: {`7`, `null`, `"p"`},
 		kinds[4]: {`{"k":1}`, `null`, `[1]`}, kinds[5]: {`{"A":1,"b":"y"}`, `null`, `{"A":"bad"}`, `{"zz":1}`}, kinds[6]: {`true`, `null`, `0`},
 		// integers that float64 cannot represent, and pre-encoded text: elements must arrive exactly
 		kinds[7]: {`9007199254740993`, `-9223372036854775808`, `9223372036854775807`, `"x"`}, kinds[8]: {`18446744073709551615`, `9007199254740993`, `-1`},
 		kinds[9]: {`9007199254740993`, `{"a":[1.0,2e0]}`, `"z"`},
+		kinds[10]: {`"low"`, `"high"`, `"medium"`},
 	}
 	var pl, pimpl []string
 	var pin []any
@@ -431,6 +450,12 @@ func TestC16(t *testing.T) {
 			names := make([]string, nnames)
 			for i := range names {
 				names[i] = fmt.Sprintf("%s%d", []string{"a", "val", "Key", "x_"}[rng.Intn(4)], i)
+			}
+			// placeholder names: "" and "-" give the parameter no object key (it can only be passed by position)
+			placeholder := false
+			if rep%5 == 4 && nnames > 0 {
+				names[rng.Intn(nnames)] = []string{"", "-"}[rng.Intn(2)]
+				placeholder = true
 			}
 			var captured []any
 			calls := 0
@@ -468,6 +493,9 @@ func TestC16(t *testing.T) {
 			// oracle struct for object-form params: one field per name, strict
 			var fields []reflect.StructField
 			for i, nm := range names {
+				if nm == "" || nm == "-" {
+					nm = "-" // no key
+				}
 				fields = append(fields, reflect.StructField{Name: fmt.Sprintf("F%d", i), Type: ts[i], Tag: reflect.StructTag(fmt.Sprintf(`json:"%s"`, nm))})
 			}
 			ost := reflect.StructOf(fields)
@@ -495,7 +523,13 @@ func TestC16(t *testing.T) {
 				var kv []string
 				for _, k := range keys {
 					idx := 0
-					fmt.Sscanf(k[len(k)-1:], "%d", &idx)
+					if k == "" || k == "-" { // a placeholder has no key; sometimes try to use it as one
+						if rng.Intn(2) == 0 {
+							continue
+						}
+					} else {
+						fmt.Sscanf(k[len(k)-1:], "%d", &idx)
+					}
 					kv = append(kv, fmt.Sprintf("%q:%s", k, sample[ts[idx]][rng.Intn(2)]))
 				}
 				if extra {
@@ -574,6 +608,9 @@ func TestC16(t *testing.T) {
 				switch {
 				case either:
 					res.Agreements++
+				case ok && placeholder && strings.HasPrefix(t0, "[") && calls == 0 && jrpc2.ErrorCode(rerr) == jrpc2.InvalidParams:
+					// finding F16 (see known_findings.json): with a placeholder name the array form is refused altogether
+					res.Violatef("an array of exactly n elements is refused when a parameter has the placeholder name \"\" or \"-\"", in, "names %q params %s: %v", names, ps, rerr)
 				case ok && (calls != 1 || rerr != nil || rval != 42):
 					res.Violatef("positional handler refused (or mis-called for) params the documented rule accepts", in, "calls=%d err=%v", calls, rerr)
 				case ok && !reflect.DeepEqual(captured, want):
